@@ -55,9 +55,9 @@ type replayOutcome struct {
 func cmdCheck(repo, prop, tier string, relock bool, only string, verbose bool) int {
 	t0 := time.Now()
 	seed := envInt("VERIF_SEED", 0)
-	timeout := 10
+	timeout := 30
 	if tier == "thorough" {
-		timeout = 60
+		timeout = 120
 	}
 	timeout = envInt("GOVC_TIMEOUT", timeout)
 	workdir := filepath.Join(verifDir, ".work", fmt.Sprintf("%s-%s-%d", prop, tier, os.Getpid()))
@@ -76,7 +76,13 @@ func cmdCheck(repo, prop, tier string, relock bool, only string, verbose bool) i
 	for _, e := range gr.errors {
 		fmt.Fprintln(os.Stderr, "govc: ERROR:", e)
 	}
-	results := runObls(gr.obls, workdir, timeout, seed, tier == "thorough", 8)
+	if !relock && tier != "thorough" {
+		quickUnlocked = map[string]bool{}
+		for n := range loadLock()[prop] {
+			quickUnlocked[n] = true
+		}
+	}
+	results := runObls(gr.obls, workdir, timeout, seed, tier == "thorough", 5)
 	byName := map[string]*OblResult{}
 	for _, r := range results {
 		byName[r.O.Name] = r
@@ -187,7 +193,13 @@ func cmdCheck(repo, prop, tier string, relock bool, only string, verbose bool) i
 		switch r.Status {
 		case "discharged", "cover-ok":
 			bySolver[r.R.Solver]++
-			newLock[r.O.Name] = LockEntry{Solver: r.R.Solver, Time: round3(r.R.Time), Kind: r.O.Kind}
+			if r.R.Time <= lockMaxTime {
+				newLock[r.O.Name] = LockEntry{Solver: r.R.Solver, Time: round3(r.R.Time), Kind: r.O.Kind}
+			} else if !isLocked {
+				notClaimed = append(notClaimed, fmt.Sprintf("%s (discharged by %s in %.1fs: too slow to lock)", r.O.Name, r.R.Solver, r.R.Time))
+			} else {
+				newLock[r.O.Name] = locked[r.O.Name]
+			}
 		case "known":
 			newLock[r.O.Name] = LockEntry{Solver: "carve-out", Time: round3(r.R.Time), Kind: r.O.Kind}
 		case "cover-unknown":
@@ -330,6 +342,9 @@ func copyFile(from, to string) {
 		os.WriteFile(to, data, 0o644)
 	}
 }
+
+// only obligations discharged well inside the timeout are locked (claimed)
+const lockMaxTime = 2.5
 
 var trustedBase = []string{
 	"A1 go/types + go/ssa (x/tools v0.29.0) and this engine's SSA->SMT encoding (guarded by the must-fail selftest corpus)",
